@@ -86,6 +86,8 @@ def command_of(s, by_out):
         parts.append("msvc=1")
         if getattr(s, "notes_last", False):
             parts.append("nl=1")
+        if getattr(s, "msvc_prefix", None):
+            parts.append("mp=" + s.msvc_prefix.encode("latin-1").hex())   # a localized compiler; the manifest binds msvc_deps_prefix
     if s.restat or getattr(s, "dyn_restat", False) or getattr(s, "tool_restat", False):
         parts.append("restat=1")   # the tool writes only on change, whoever declares restat (tool_restat: nobody does)
     if s.generator:
@@ -139,7 +141,9 @@ class Variant:
         lines = ["rule " + self.rule_name(i), "  command = " + command_of(s, by_out)]
         if s.desc:
             lines.append("  description = " + s.desc)
-        if s.depfile:
+        if s.depfile and getattr(s, "depfile_decoy", None):
+            lines.append("  depfile = " + s.depfile_decoy)   # overridden in the build statement's block
+        elif s.depfile:
             d = getattr(s, "depfile_dir", None)
             # written with $out, as build generators do: the path is evaluated by ninja
             lines.append("  depfile = %s$out.d" % (d + "/" if d else "") if len(s.outs) == 1 and d else
@@ -153,7 +157,8 @@ class Variant:
         if s.dyndep and getattr(s, "dyndep_at_rule", False):
             lines.append("  dyndep = " + s.dyndep)     # bound in the rule block: the build statement has no block of its own
         if s.rsp:
-            lines.append("  rspfile = " + s.rsp[0])
+            # rsp_decoy: the rule names another file; the build statement's own binding (below) is the one that counts
+            lines.append("  rspfile = " + (getattr(s, "rsp_decoy", None) or s.rsp[0]))
             # a literally empty value is rejected by the parser; an empty *evaluated* content is legal
             # rsp_manifest: how the manifest writes the content ($in, $in_newline) when s.rsp[1] is its evaluated value
             lines.append("  rspfile_content = " + (getattr(s, "rsp_manifest", None) or (s.rsp[1] if s.rsp[1] else "$rsp_nothing")))
@@ -183,6 +188,10 @@ class Variant:
             lines.append("  dyndep = " + getattr(s, "dyndep_spelled", s.dyndep))   # (the binding's value is a path like any other)
         if s.generator and getattr(s, "generator_at_build", False):
             lines.append("  generator = 1")     # bound in the build block: the rule itself says nothing
+        if s.rsp and getattr(s, "rsp_decoy", None):
+            lines.append("  rspfile = " + s.rsp[0])
+        if s.depfile and getattr(s, "depfile_decoy", None):
+            lines.append("  depfile = " + depfile_of(s))
         return lines
 
     def scoped_files(self):
